@@ -4,7 +4,9 @@
 // `>,c` lets the server handle the head of client c's request channel (PerformRead of the
 // server-side descriptor, or its close handler when the client has gone), `<,c` lets client c
 // handle the head of its channel.  Time is virtual (clock_gettime(CLOCK_MONOTONIC) is wrapped).
+#include <dirent.h>
 #include <poll.h>
+#include <sys/socket.h>
 #include <time.h>
 #include <algorithm>
 #include <map>
@@ -27,9 +29,16 @@
 #include "ola/base/Flags.h"
 #include "ola/client/OlaClient.h"
 #include "ola/client/StreamingClient.h"
+#include "ola/rdm/RDMCommand.h"
+#include "ola/rdm/UID.h"
+#include "ola/timecode/TimeCode.h"
+#include "ola/timecode/TimeCodeEnums.h"
 #include "ola/OlaClientCore.h"
 #include "ola/io/Descriptor.h"
 #include "ola/io/SelectServer.h"
+#include "ola/network/IPV4Address.h"
+#include "ola/network/SocketAddress.h"
+#include "ola/network/TCPSocket.h"
 #include "olad/ClientBroker.h"
 #include "olad/OlaServer.h"
 #include "olad/PluginLoader.h"
@@ -113,6 +122,7 @@ struct Cl {
   OlaClient *client;
   ola::client::StreamingClient *sclient;   // ola/StreamingClient.cpp over loopback TCP (or NULL)
   int pending;                   // streamed messages written but not yet handled by the server
+  bool tcp;                      // an OlaClient over a loopback TCP socket instead of a pipe
   const ola::Client *srv_client; // server-side object (identity only)
   bool closed;                   // client called Stop()
   World *w;
@@ -122,6 +132,10 @@ struct World {
   vector<string> ev;             // events of the current step
   std::map<unsigned, unsigned> completions;
   unsigned next_rid;
+  int flood_client;              // >= 0 while that client drains what a flood left in its socket
+  unsigned flood_u, flood_p, flood_n, flood_bad;
+  string flood_hex;
+  std::set<int> close_handler_ran;
   vector<Cl*> cls;
   ola::io::SelectServer *ss;
   ola::OlaServer *server;
@@ -148,7 +162,46 @@ static void ev_info(World *w, int c, unsigned rid, const Result &r, const OlaUni
 template <typename T>
 static void ev_opq(World *w, int c, unsigned rid, const Result &r, const T&) { ev_set(w, c, rid, r); }
 
+static void ev_rdm(World *w, int c, unsigned rid, const Result &r, const ola::client::RDMMetadata&,
+                   const ola::rdm::RDMResponse*) { ev_set(w, c, rid, r); }
+
+static void ev_closed(World *w, int c) { w->close_handler_ran.insert(c); }
+
+static int count_fds() {
+  int n = 0;
+  DIR *d = opendir("/proc/self/fd");
+  if (!d) return -1;
+  while (readdir(d)) n++;
+  closedir(d);
+  return n;
+}
+
+// data (or, for TCP, data that is still on its way through the loopback) available on a descriptor
+static bool avail(ola::io::ConnectedDescriptor *d, bool tcp) {
+  if (d->DataRemaining() > 0) return true;
+  if (!tcp) return false;
+  struct pollfd pfd;
+  pfd.fd = d->ReadDescriptor();
+  pfd.events = POLLIN;
+  if (poll(&pfd, 1, 2) <= 0) return false;
+  return d->DataRemaining() > 0;
+}
+static bool at_eof(ola::io::ConnectedDescriptor *d) {
+  struct pollfd pfd;
+  pfd.fd = d->ReadDescriptor();
+  pfd.events = POLLIN;
+  if (poll(&pfd, 1, 200) <= 0) return false;
+  char ch;
+  return recv(d->ReadDescriptor(), &ch, 1, MSG_PEEK | MSG_DONTWAIT) == 0;
+}
+
 static void ev_dmx(World *w, int c, const DMXMetadata &m, const DmxBuffer &b) {
+  if (w->flood_client == c) {
+    w->flood_n++;
+    if (m.universe != w->flood_u || m.priority != w->flood_p || vh::hex(b.GetRaw(), b.Size()) != w->flood_hex)
+      w->flood_bad++;
+    return;
+  }
   w->ev.push_back(vh::str(c) + ".dmx:" + vh::str(m.universe) + ":" +
                   vh::str(static_cast<unsigned>(m.priority)) + ":" + vh::hex(b.GetRaw(), b.Size()));
 }
@@ -170,7 +223,7 @@ static string server_step(World *w, Cl *c, bool new_iteration = true) {
     pfd.events = POLLIN;
     poll(&pfd, 1, 2000);                    // loopback TCP: the bytes are on their way
   }
-  if (c->sd->DataRemaining() > 0) {
+  if (avail(c->sd, c->tcp)) {
     c->sd->PerformRead();
     if (c->pending > 0) c->pending--;
     r = "m";
@@ -191,7 +244,7 @@ static string server_step(World *w, Cl *c, bool new_iteration = true) {
 static string client_step(World *w, Cl *c) {
   if (c->closed) return "x";
   if (c->sclient) return "e";               // a StreamingClient never receives anything
-  if (c->cd->DataRemaining() > 0) {
+  if (avail(c->cd, c->tcp)) {
     c->cd->PerformRead();
     return "m";
   }
@@ -199,9 +252,9 @@ static string client_step(World *w, Cl *c) {
 }
 
 static bool server_can(World *w, Cl *c) {
-  return srv_alive(w, c) && (c->sd->DataRemaining() > 0 || c->pending > 0 || c->closed);
+  return srv_alive(w, c) && (avail(c->sd, c->tcp) || c->pending > 0 || c->closed);
 }
-static bool client_can(Cl *c) { return !c->closed && c->cd && c->cd->DataRemaining() > 0; }
+static bool client_can(Cl *c) { return !c->closed && c->cd && avail(c->cd, c->tcp); }
 
 static int cidx(World *w, const ola::Client *p) {
   for (size_t i = 0; i < w->cls.size(); i++)
@@ -255,7 +308,7 @@ static string dump(World *w) {
 static volatile sig_atomic_t g_sigpipes = 0;
 static void on_sigpipe(int) { g_sigpipes++; }
 
-static string run_case(const string &payload) {
+static string run_case_inner(const string &payload) {
   vector<string> ops = vh::split(payload, ' ');
   // The daemon is embedded here as a library: it must protect itself against SIGPIPE (writes to a
   // client that has closed its end).  Start every case from the default disposition so that
@@ -265,13 +318,23 @@ static string run_case(const string &payload) {
   // "<n>" or "<n>:<k>": clients k..n-1 are ola::client::StreamingClient instances (TCP)
   vector<string> hdr = vh::split(ops[0], ':');
   unsigned ncl = vh::num(hdr[0]);
-  unsigned first_streaming = hdr.size() > 1 ? vh::num(hdr[1]) : ncl;
+  // client types: p = OlaClient over a pipe, s = StreamingClient (TCP), t = OlaClient over TCP
+  string types(ncl, 'p');
+  if (hdr.size() > 1) {
+    if (hdr[1].find_first_not_of("0123456789") == string::npos) {
+      for (unsigned i = vh::num(hdr[1]); i < ncl; i++) types[i] = 's';
+    } else {
+      for (unsigned i = 0; i < ncl && i < hdr[1].size(); i++) types[i] = hdr[1][i];
+    }
+  }
   g_now = T0;
   FLAGS_rpc_port = 0;
   FLAGS_register_with_dns_sd = false;
 
   World w;
   w.next_rid = 0;
+  w.flood_client = -1;
+  w.flood_n = w.flood_bad = w.flood_u = w.flood_p = 0;
   ola::io::SelectServer ss;
   w.ss = &ss;
   NullLoader loader;
@@ -307,17 +370,30 @@ static string run_case(const string &payload) {
     c->closed = false;
     c->sclient = NULL;
     c->pending = 0;
+    c->tcp = false;
     c->client = NULL;
     c->srv_client = NULL;
     std::set<const ola::Client*> before = server->m_broker->m_clients;
-    if (i >= first_streaming) {
+    if (types[i] == 's' || types[i] == 't') {
       std::set<ola::io::ConnectedDescriptor*> socks_before = server->m_rpc_server->m_connected_sockets;
-      ola::client::StreamingClient::Options sopt;
-      sopt.auto_start = false;
-      sopt.server_port = server->LocalRPCAddress().V4Addr().Port();
-      c->sclient = new ola::client::StreamingClient(sopt);
-      if (!c->sclient->Setup()) return "streaming-setup=failed";
+      uint16_t port = server->LocalRPCAddress().V4Addr().Port();
       c->cd = NULL;
+      if (types[i] == 's') {
+        ola::client::StreamingClient::Options sopt;
+        sopt.auto_start = false;
+        sopt.server_port = port;
+        c->sclient = new ola::client::StreamingClient(sopt);
+        if (!c->sclient->Setup()) return "streaming-setup=failed";
+      } else {
+        ola::network::TCPSocket *sock = ola::network::TCPSocket::Connect(
+            ola::network::IPV4SocketAddress(ola::network::IPV4Address::Loopback(), port));
+        if (!sock) return "tcp-connect=failed";
+        sock->SetNoDelay();
+        int small = 4096;                     // keep the amount a non-reading client can buffer small
+        setsockopt(sock->ReadDescriptor(), SOL_SOCKET, SO_RCVBUF, &small, sizeof(small));
+        c->cd = sock;
+        c->tcp = true;
+      }
       c->sd = NULL;
       for (int tries = 0; tries < 200 && !c->sd; tries++) {
         ss.RunOnce(ola::TimeInterval(0, 10000));       // accept the connection
@@ -325,7 +401,11 @@ static string run_case(const string &payload) {
         for (std::set<ola::io::ConnectedDescriptor*>::const_iterator it = now_socks.begin(); it != now_socks.end(); ++it)
           if (!socks_before.count(*it)) c->sd = *it;
       }
-      if (!c->sd) return "streaming-accept=failed";
+      if (!c->sd) return "tcp-accept=failed";
+      if (c->tcp) {
+        int small = 4096;
+        setsockopt(c->sd->WriteDescriptor(), SOL_SOCKET, SO_SNDBUF, &small, sizeof(small));
+      }
     } else {
       PipeDescriptor *pd = new PipeDescriptor();
       pd->Init();
@@ -341,6 +421,7 @@ static string run_case(const string &payload) {
       c->client = new OlaClient(c->cd);
       c->client->Setup();
       c->client->SetDMXCallback(ola::NewCallback(&ev_dmx, &w, static_cast<int>(i)));
+      if (c->tcp) c->client->SetCloseHandler(ola::NewSingleCallback(&ev_closed, &w, static_cast<int>(i)));
     }
     w.cls.push_back(c);
   }
@@ -433,6 +514,46 @@ static string run_case(const string &payload) {
       w.completions[rid];
       c->client->Patch(1, 0, ola::client::OUTPUT_PORT, ola::client::PATCH, vh::num(f[2]),
                        ola::NewSingleCallback(&ev_set, &w, c->idx, rid));
+    } else if (op == "B") {
+      // B,src,x,u,p,n,hex: back-pressure.  Client x (a registered sink over TCP) stops servicing its
+      // socket while src streams n identical full frames, each handled by the daemon at once: the
+      // socket buffers fill, a daemon-side write to x fails and the daemon drops x.  Then x resumes:
+      // it reads what had been queued (checked against the flooded frame, reported once), sees the
+      // end of the stream (its close handler must run) and stops.
+      Cl *x = w.cls[vh::num(f[2]) % ncl];
+      unsigned u = vh::num(f[3]), pr = vh::num(f[4]), n = vh::num(f[5]);
+      vector<uint8_t> d = vh::unhex(f[6]);
+      DmxBuffer buf(d.data(), d.size());
+      for (unsigned i = 0; i < n; i++) {
+        SendDMXArgs args;
+        args.priority = static_cast<uint8_t>(pr);
+        c->client->SendDMX(u, buf, args);
+        server_step(&w, c);
+        for (size_t y = 0; y < w.cls.size(); y++)       // everybody else keeps servicing its connection
+          if (w.cls[y] != x)
+            while (client_can(w.cls[y])) client_step(&w, w.cls[y]);
+      }
+      bool dropped = !srv_alive(&w, x);
+      w.flood_client = x->idx;
+      w.flood_u = u; w.flood_p = std::min(pr, 200u); w.flood_hex = vh::hex(buf.GetRaw(), buf.Size());
+      w.flood_n = w.flood_bad = 0;
+      unsigned guard = 0;
+      while (!x->closed && avail(x->cd, true) && guard++ < 100000) x->cd->PerformRead();
+      w.flood_client = -1;
+      if (dropped && at_eof(x->cd)) {
+        ola::io::ConnectedDescriptor::OnCloseCallback *cb = x->cd->TransferOnClose();
+        if (cb) cb->Run();
+      }
+      if (!dropped) w.ev.push_back("no-fault");
+      if (w.flood_n > 0 && w.flood_bad == 0)
+        w.ev.push_back(vh::str(x->idx) + ".flood:" + vh::str(u) + ":" + vh::str(w.flood_p) + ":" + w.flood_hex);
+      else
+        w.ev.push_back(vh::str(x->idx) + ".floodBAD:" + vh::str(w.flood_n) + ":" + vh::str(w.flood_bad));
+      if (w.close_handler_ran.count(x->idx)) w.ev.push_back(vh::str(x->idx) + ".closed");
+      if (!x->closed) {
+        x->client->Stop();
+        x->closed = true;
+      }
     } else if (op == "X") {
       // X,c,kind,arg: the other request kinds of the client API (opaque completions)
       unsigned rid = w.next_rid++;
@@ -474,6 +595,33 @@ static string run_case(const string &payload) {
           break;
         case 10:
           cl->SetSourceUID(ola::rdm::UID(0x7a70, arg), ola::NewSingleCallback(&ev_set, &w, ci, rid));
+          break;
+        case 11:
+          cl->RunDiscovery(arg, ola::client::DISCOVERY_INCREMENTAL, ola::NewSingleCallback(&ev_opq<ola::rdm::UIDSet>, &w, ci, rid));
+          break;
+        case 12:
+          cl->RunDiscovery(arg, ola::client::DISCOVERY_FULL, ola::NewSingleCallback(&ev_opq<ola::rdm::UIDSet>, &w, ci, rid));
+          break;
+        case 13: {
+          ola::client::SendRDMArgs rargs(ola::NewSingleCallback(&ev_rdm, &w, ci, rid));
+          cl->RDMGet(arg, ola::rdm::UID(0x7a70, 1), 0, 0x0060, NULL, 0, rargs);
+          break;
+        }
+        case 14: {
+          ola::client::SendRDMArgs rargs(ola::NewSingleCallback(&ev_rdm, &w, ci, rid));
+          uint8_t on = 1;
+          cl->RDMSet(arg, ola::rdm::UID(0x7a70, 1), 0, 0x1000, &on, 1, rargs);
+          break;
+        }
+        case 15:
+          cl->SendTimeCode(ola::timecode::TimeCode(ola::timecode::TIMECODE_EBU, 1, 2, 3, 4),
+                           ola::NewSingleCallback(&ev_set, &w, ci, rid));
+          break;
+        case 16:
+          cl->ReloadPlugins(ola::NewSingleCallback(&ev_set, &w, ci, rid));
+          break;
+        case 17:
+          cl->SetPluginState(ola::OLA_PLUGIN_DUMMY, true, ola::NewSingleCallback(&ev_set, &w, ci, rid));
           break;
         default:
           return "bad-kind=" + f[2];
@@ -541,6 +689,15 @@ static string run_case(const string &payload) {
   signal(SIGPIPE, SIG_IGN);
   return "obs=" + obs + ";cnt=" + cnt + ";once=" + (once ? "1" : "0") + ";sigpipe=" + (sigpipe ? "1" : "0") +
          ";srv=" + srv;
+}
+
+// file descriptors: whatever a case opened (pipes, sockets, the daemon's listening socket, the
+// event loop's own descriptors) must be closed again once clients and daemon are gone
+static string run_case(const string &payload) {
+  int fds_before = count_fds();
+  string r = run_case_inner(payload);
+  int fdleak = count_fds() - fds_before;
+  return r + ";fdleak=" + vh::str(fdleak);
 }
 
 int main(int argc, char **argv) {
